@@ -124,6 +124,17 @@ def run_kani(name, tier):
     return out
 
 
+def _ffi_props(raw):
+    """the assertions of miri/verif_ffi_miri.rs name the properties they speak for: '[C16 C19] string handed to the C host ...'"""
+    import re
+    ps = []
+    for m in re.finditer(r'\[((?:C\d\d ?)+)\] string handed to the C host', raw or ''):
+        for x in m.group(1).split():
+            if x not in ps:
+                ps.append(x)
+    return sorted(ps) if ps else ['C19']
+
+
 def run_miri(name, tier):
     import miri_run as MR
     r = MR.run(timeout=1500 if tier == 'quick' else 5400, tier=tier)
@@ -131,7 +142,7 @@ def run_miri(name, tier):
            'bound': 'fixed call sequences (%s tier)' % tier, 'cases': r.get('tests', 0), 'wall_s': r.get('wall_s', 0), 'name': 'miri_ffi',
            'domain': 'FFI life cycles (config, context, key/backspace/commit/update events, every read-out, frees; read-outs re-read after the context is freed) executed under Miri: memory safety, UTF-8/NUL checks against the Rust API, leak check at exit'}
     if r['status'] == 'fail':
-        out['violations'].append({'props': ['C19'], 'unit': 'miri', 'function': 'verif_ffi_miri', 'kind': 'Miri reported an error', 'clause': 'C19 life cycle performs no invalid memory access and leaks nothing; strings equal the Rust API values',
+        out['violations'].append({'props': _ffi_props(r.get('raw', '')), 'unit': 'miri', 'function': 'verif_ffi_miri', 'kind': 'Miri reported an error', 'clause': 'C19 life cycle performs no invalid memory access and leaks nothing; strings equal the Rust API values',
                                   'rendered': r.get('raw', '')[-3500:], 'input': {'miri_test': 'miri/verif_ffi_miri.rs', 'tier': tier, 'error': r.get('detail', '')[:600]}, 'exit_point': None})
     out['samples'].append({'miri_test': 'ffi_life_cycles + ffi_fixed_life_cycle + ffi_reconfigure_life_cycle', 'verdict': r['status'], 'wall_s': round(r.get('wall_s', 0))})
     return out
@@ -144,7 +155,8 @@ def run_ffi_native(name, tier):
            'bound': 'fixed call sequences (%s tier), native allocator' % tier, 'cases': r.get('tests', 0), 'wall_s': r.get('wall_s', 0), 'name': 'ffi_native',
            'domain': 'the FFI life cycles of miri/verif_ffi_miri.rs as an ordinary test binary: every C string compared with the Rust API value after every event, with the system allocator (freed suggestion addresses are reused at once)'}
     if r['status'] == 'fail':
-        out['violations'].append({'props': ['C19'], 'unit': 'ffi_native', 'function': 'verif_ffi_miri', 'kind': 'FFI life cycle failed natively', 'clause': 'C19 every returned string equals the value the Rust API reports; pointers are unaffected by later calls',
+        pr = _ffi_props(r.get('raw', ''))
+        out['violations'].append({'props': pr, 'unit': 'ffi_native', 'function': 'verif_ffi_miri', 'kind': 'FFI life cycle failed natively', 'clause': ' '.join(pr) + ' every returned string equals the value the Rust API reports; pointers are unaffected by later calls',
                                   'rendered': r.get('raw', '')[-3500:], 'input': {'test': 'miri/verif_ffi_miri.rs (native)', 'tier': tier, 'error': r.get('detail', '')[:600]}, 'exit_point': None})
     out['samples'].append({'native_ffi_test': 'ffi life cycles', 'verdict': r['status'], 'wall_s': round(r.get('wall_s', 0))})
     return out
